@@ -37,9 +37,15 @@ Definition sc_return_back (s : sctl) (flow : N) : option sctl :=
        match sc_available s1 with Some _ => Some s1 | None => None end
   else None.
 
-Definition sc_revise (s : sctl) (rejected : bool) (v : N) : sctl :=
-  let s0 := if rejected then mksctl (sent_data s) 0 false else s in
+(* SendControler::revise_max_data.  [fx = true]: the code after the `fix:` commit for F34 (a
+   rejected 0-RTT attempt restarts sent_data together with max_data: the streams forget their sent
+   state at the same moment and every byte is charged again when it is re-sent); [fx = false]: as
+   it was (sent_data kept) *)
+Definition sc_revise_with (fx : bool) (s : sctl) (rejected : bool) (v : N) : sctl :=
+  let s0 := if rejected then mksctl (if fx then 0 else sent_data s) 0 false else s in
   sc_increase_limit s0 v.
+Definition sc_revise : sctl -> bool -> N -> sctl := sc_revise_with true.
+Definition sc_revise_asis : sctl -> bool -> N -> sctl := sc_revise_with false.
 
 (* credit(quota): (state, credit.available, DATA_BLOCKED?) *)
 Definition sc_credit (s : sctl) (quota : N) : option (sctl * N * option N) :=
@@ -95,7 +101,7 @@ Fixpoint set_nth {A} (l : list A) (n : nat) (v : A) : list A :=
   | h :: t, S k => h :: set_nth t k v
   end.
 
-Definition f_step (st : fstate) (t : N) (a : list Z) : fstate * list Z :=
+Definition f_step (fx : bool) (st : fstate) (t : N) (a : list Z) : fstate * list Z :=
   if f_dead st then (st, [(-1)%Z]) else
   match t, a with
   | 0, [q] =>
@@ -134,19 +140,24 @@ Definition f_step (st : fstate) (t : N) (a : list Z) : fstate * list Z :=
     | RcvPanic => (mkf (f_s st) r' (f_credits st) true, [(-3)%Z])
     end
   | 5, [rej; v] =>
-    let s' := sc_revise (f_s st) (negb (rej =? 0)%Z) (Z.to_N v) in
+    let s' := sc_revise_with fx (f_s st) (negb (rej =? 0)%Z) (Z.to_N v) in
     (mkf s' (f_r st) (f_credits st) false, [1%Z])
   | _, _ => (st, [(-99)%Z])
   end.
 
-Fixpoint f_run (st : fstate) (l : list (N * list Z)) : list (list Z) :=
+Fixpoint f_run (fx : bool) (st : fstate) (l : list (N * list Z)) : list (list Z) :=
   match l with
   | [] => []
-  | (t, a) :: rest => let '(st', o) := f_step st t a in o :: f_run st' rest
+  | (t, a) :: rest => let '(st', o) := f_step fx st t a in o :: f_run fx st' rest
   end.
 
-Definition run_flow (cfg : list Z) (l : list (N * list Z)) : list (list Z) :=
+Definition run_flow_with (fx : bool) (cfg : list Z) (l : list (N * list Z)) : list (list Z) :=
   match cfg with
-  | [p; q] => f_run (f_init (Z.to_N p) (Z.to_N q)) l
+  | [p; q] => f_run fx (f_init (Z.to_N p) (Z.to_N q)) l
   | _ => []
   end.
+
+(* [run_flow]: the code as it was before the repair of F34; [run_flow_fixed]: the repaired code
+   (the one the stream registry compares with the implementation) *)
+Definition run_flow : list Z -> list (N * list Z) -> list (list Z) := run_flow_with false.
+Definition run_flow_fixed : list Z -> list (N * list Z) -> list (list Z) := run_flow_with true.
